@@ -102,6 +102,7 @@ FINDINGS = [
     ),
 ]
 FIXED = [
+    'fixed: property=C01 f4150fc Google style: continuation lines of a multi-line description were emitted at column 0; read back they ended the Args section (description truncated, rest appended to the header, later defaults lost)',
     "fixed: property=C01 fc46805 a quoted string default containing a full stop ('a.b') was cut at the dot when read back from the prose, or the parser raised SyntaxError",
     'fixed: property=C01 26237d2 a string default containing a double quote was emitted as "say "hi"" and the Google/NumPy parsers raised SyntaxError reading it back',
     "fixed: property=C01 efa4dbd an empty-string default was emitted as a dangling 'Defaults to': the default was lost and the words stayed in the description",
@@ -111,5 +112,5 @@ FIXED = [
 ]
 
 # patterns of defects that have since been repaired in the repository (see FIXED): no longer known findings
-FIXED_IDS = ['C01-double-quote-in-string-default-not-escaped', 'C01-empty-string-default-leaves-prose', 'C01-empty-string-default-lost', 'C01-string-default-cut-at-full-stop']
+FIXED_IDS = ['C01-double-quote-in-string-default-not-escaped', 'C01-empty-string-default-leaves-prose', 'C01-empty-string-default-lost', 'C01-google-multiline-description-continuation-unindented', 'C01-string-default-cut-at-full-stop']
 FINDINGS = [f for f in FINDINGS if f["id"] not in FIXED_IDS]
